@@ -184,3 +184,79 @@ Definition spec_findFile_fs (root : entry) (cwd : list str) (path : list (list s
 Definition dots_nested_fs (root : entry) (path : list (list str * bool)) (name : str) : bool :=
   let root := readDirAll root in
   dots_nested name (map (fun '(p, dots) => (resolve root p, dots)) path).
+
+(* ===================================================================================== *)
+(* (a') texts with several modules: Parse is all or nothing.  A text is accepted iff each of
+   its headers is new with respect to the accepted texts before it and to the headers before
+   it in the same text; an accepted text contributes all its headers, a rejected one none. *)
+Fixpoint text_ok_from (prev seen : list header) (hs : list header) : bool :=
+  match hs with
+  | [] => true
+  | h :: t => spec_ok (prev ++ seen) h && text_ok_from prev (seen ++ [h]) t
+  end.
+Definition text_ok (prev hs : list header) : bool := text_ok_from prev [] hs.
+
+Fixpoint spec_texts (prev : list header) (texts : list (list header)) : list bool :=
+  match texts with
+  | [] => []
+  | hs :: rest =>
+      let ok := text_ok prev hs in
+      ok :: spec_texts (if ok then prev ++ hs else prev) rest
+  end.
+(* the headers of the accepted texts, in load order *)
+Fixpoint accepted_headers (prev : list header) (texts : list (list header)) : list header :=
+  match texts with
+  | [] => prev
+  | hs :: rest => accepted_headers (if text_ok prev hs then prev ++ hs else prev) rest
+  end.
+
+(* ===================================================================================== *)
+(* (b') what findInDir does on a "dir/..." element, for EVERY tree (this is a description of the
+   code, not of the property: it is where the known finding findfile.dots-subdir-first lives).
+   The entries of a directory are visited in name order; the first one that is either the exact
+   file name.yang or a subdirectory below which some directory offers a file decides: the exact
+   file is opened, or the search continues inside that subdirectory.  Only when no entry decides
+   is the directory's own latest dated file opened. *)
+Definition dated_best (name : str) (es : list entry) : option str :=
+  match dates name es with
+  | [] => None
+  | d :: ds => Some (name ++ AT :: max_str d ds ++ DOT_YANG)
+  end.
+
+Section Choose.
+  Variable rec : entry -> option (list str).
+  Variable name : str.
+  Variable fallback : option (list str).
+  Fixpoint choose_in (l : list entry) : option (list str) :=
+    match l with
+    | [] => fallback
+    | File fn :: r => if str_eqb fn (name ++ DOT_YANG) then Some [fn] else choose_in r
+    | (Dir dn _ as c) :: r =>
+        if any_offer name c then option_map (cons dn) (rec c) else choose_in r
+    end.
+End Choose.
+
+Fixpoint chosen (name : str) (d : entry) : option (list str) :=
+  match d with
+  | File _ => None
+  | Dir _ es => choose_in (chosen name) name (option_map (fun f => [f]) (dated_best name es)) es
+  end.
+
+(* findFile for every search path, "dir/..." elements included *)
+Definition chosen_of (name : str) (pe : pathent) : option (list str) :=
+  match pe with
+  | (Some (Dir n es), true) => chosen name (Dir n es)
+  | (Some (Dir _ es), false) => option_map (fun f => [f]) (spec_best name es)
+  | _ => None
+  end.
+Fixpoint exact_search (name : str) (i : nat) (locs : list pathent) : option found :=
+  match locs with
+  | [] => None
+  | pe :: rest =>
+      match chosen_of name pe with
+      | Some p => Some (Found i p)
+      | None => exact_search name (S i) rest
+      end
+  end.
+Definition exact_findFile (cwd : entry) (path : list pathent) (name : str) : option found :=
+  exact_search name 0 ((Some cwd, false) :: path).
